@@ -228,12 +228,15 @@ func (in *Interp) hashUF(tag string, data []Value, outBytes int) Array {
 	_ = allConst
 	var res *Term
 	name := fmt.Sprintf("%s_%d", tag, n)
-	if n == 0 {
-		res = in.tt.Var(name+"_empty", BV(8*outBytes))
-	} else {
-		acc := data[0].(*Term)
-		for _, b := range data[1:] {
-			acc = in.tt.Concat(acc, b.(*Term))
+	{
+		// the empty input is one more application (a fixed dummy argument term), so that it takes part in the
+		// cross-length distinctness below
+		acc := in.tt.BVU(0, 1)
+		if n > 0 {
+			acc = data[0].(*Term)
+			for _, b := range data[1:] {
+				acc = in.tt.Concat(acc, b.(*Term))
+			}
 		}
 		// A hash application is a fresh digest variable per distinct argument term; congruence and
 		// collision freedom against the other applications of the same function on this path are added
